@@ -43,6 +43,8 @@ SCHEDS = [
     {"policy": "rr", "q": 1, "preempt": "opcode"},
     {"policy": "random", "p": 0.3, "preempt": "opcode"},
     {"policy": "random", "p": 0.2, "preempt": "sync"},
+    {"policy": "random", "p": 0.5, "preempt": "sync"},
+    {"policy": "pct", "d": 2, "horizon": 150, "preempt": "sync"},
 ]
 T3 = 3.0
 REPLY_MODES = ["now", "now", "d0.001", "d0.1", "d0.5", "d1.0", "d2.2", "late", "never", "twice"]
